@@ -129,6 +129,10 @@ func (t *Telnet) handleControlChars(a *Args) error {
 func (t *Telnet) Open(a *Args) error {
 	var err error
 
+	// a new connection is a new stream: anything still buffered from an earlier opening of this
+	// transport must not be handed to the readers of this one.
+	t.initialBuf = nil
+
 	t.c, err = net.Dial(tcp, fmt.Sprintf("%s:%d", a.Host, a.Port))
 	if err != nil {
 		return err
